@@ -56,6 +56,10 @@ type Decl struct {
 type SrcFile struct {
 	Name  string  `json:"name"`
 	Decls []*Decl `json:"decls"`
+	// Cgo: the file imports "C" (a small static C function in the preamble and a Go function calling it).
+	// go list then hands go/packages the copy cgo writes into the build cache, whose //line directives
+	// point back to this file by absolute path.
+	Cgo bool `json:"cgo,omitempty"`
 }
 
 // PreFile is a file that exists before gengo runs and is not a spec'd source.
@@ -312,6 +316,10 @@ func (m *ModuleSpec) FileSource(pi int, f *SrcFile, first bool) string {
 		}
 	}
 	sb.WriteString("package " + p.Name + "\n")
+	if f.Cgo {
+		id := sanitize(strings.TrimSuffix(f.Name, ".go"))
+		sb.WriteString("\n/*\nstatic int twice_" + id + "(int x) { return 2 * x; }\n*/\nimport \"C\"\n\n// Twice_" + id + " calls into C.\nfunc Twice_" + id + "(x int) int { return int(C.twice_" + id + "(C.int(x))) }\n")
+	}
 	if first && (len(p.Imports) > 0 || len(p.Std) > 0) {
 		sb.WriteString("\nimport (\n")
 		for _, s := range p.Std {
